@@ -261,5 +261,588 @@ pub proof fn lemma_scaled_identity(mt: M, b: V, x: V, dim: int, p: int, s: real,
         }
 //@end
 
+
+// ================================================================ class_characterization (chain tree)
+//@include prelude/chain_spec.rs
+
+// rule I13: `(0..dim).filter(|x| *x != clazz)` as a vector: the indices below n except `skip`, ascending (verified helper)
+pub fn range_except_vec(n: usize, skip: usize) -> (r: Vec<usize>)
+    ensures
+        forall|k: int| 0 <= k < r@.len() ==> (#[trigger] r@[k]) < n && r@[k] != skip,
+        forall|i: usize| i < n && i != skip ==> r@.contains(i),
+        skip < n ==> r@.len() == n - 1, skip >= n ==> r@.len() == n,
+{
+    let mut v: Vec<usize> = Vec::new();
+    let mut i: usize = 0;
+    while i < n
+        invariant 0 <= i <= n,
+            forall|k: int| 0 <= k < v@.len() ==> (#[trigger] v@[k]) < i && v@[k] != skip,
+            forall|j: usize| j < i && j != skip ==> v@.contains(j),
+            v@.len() == (if skip < i { i - 1 } else { i as int }),
+        decreases n - i
+    {
+        if i != skip {
+            let ghost v0 = v@;
+            v.push(i);
+            proof {
+                assert forall|j: usize| j < i + 1 && j != skip implies v@.contains(j) by {
+                    if j < i { assert(v0.contains(j)); let k = choose|k: int| 0 <= k < v0.len() && v0[k] == j; assert(v@[k] == j); }
+                    else { assert(v@[v0.len() as int] == j); }
+                }
+            }
+        }
+        i += 1;
+    }
+    v
+}
+
+// predicate node "x[i] <= x[c]" and constant leaves
+pub open spec fn le_pred(f: AffFunc, dim: usize, i: usize, c: usize) -> bool {
+    f.ok() && f.mat.ncols() == dim && f.mat.nrows() == 1 && forall|x: V| x.len() == dim ==> (#[trigger] f.row_sat(0, x) <==> x[i as int] <= x[c as int])
+}
+pub open spec fn const_leaf(f: AffFunc, dim: usize, v: real) -> bool {
+    f.ok() && f.mat.ncols() == dim && f.mat.nrows() == 1 && forall|x: V| x.len() == dim ==> #[trigger] f.ap(x) == seq![v]
+}
+pub proof fn lemma_sub_is_le_pred(f: AffFunc, dim: usize, i: usize, c: usize)
+    requires f.ok(), f.mat.ncols() == dim, f.mat.nrows() == 1, f.bias.v() =~= seq![0real], i < dim, c < dim,
+        forall|x: V| x.len() == dim ==> #[trigger] f.ap(x) =~= seq![x[i as int] - x[c as int]],
+    ensures le_pred(f, dim, i, c)
+{
+    assert forall|x: V| x.len() == dim implies (#[trigger] f.row_sat(0, x) <==> x[i as int] <= x[c as int]) by {
+        assert(f.ap(x)[0] == x[i as int] - x[c as int]);
+        assert(f.ap(x)[0] == mv(f.mat.m(), x)[0] + f.bias.v()[0]);
+    }
+}
+
+// state of the construction: c[0..] chain nodes for the indices it[0..c.len()), all but the last complete, the last one still a childless leaf
+#[verifier::opaque]
+pub open spec fn cc_inv(a: AArena<2>, c: Seq<usize>, it: Seq<usize>, clazz: usize, dim: usize) -> bool {
+    &&& 1 <= c.len() <= it.len() && c[0] == 0
+    &&& forall|i: usize| #[trigger] a.dom().contains(i) ==> a[i].value.aff.ok() && a[i].value.aff.mat.ncols() == dim && a[i].value.aff.mat.nrows() == 1
+    &&& forall|k: int| 0 <= k < c.len() ==> a.dom().contains(#[trigger] c[k]) && le_pred(a[c[k]].value.aff, dim, it[k], clazz)
+    &&& forall|k1: int, k2: int| 0 <= k1 < k2 < c.len() ==> c[k1] != c[k2]
+    &&& forall|k: int| 0 <= k < c.len() - 1 ==> {
+            let nd = a[#[trigger] c[k]];
+            !nd.isleaf && nd.children[1] == Some(c[k + 1]) && nd.children[0].is_some() && a.dom().contains(nd.children[0].unwrap())
+                && a[nd.children[0].unwrap()].isleaf && const_leaf(a[nd.children[0].unwrap()].value.aff, dim, 0real)
+        }
+    &&& a[c.last()].isleaf && no_kids(a[c.last()])
+}
+
+pub proof fn lemma_cc_init(a: AArena<2>, it: Seq<usize>, clazz: usize, dim: usize)
+    requires a.dom() =~= set![0usize], a[0].isleaf, no_kids(a[0]), le_pred(a[0].value.aff, dim, it[0], clazz), it.len() >= 1
+    ensures cc_inv(a, seq![0usize], it, clazz, dim)
+{
+    reveal(cc_inv);
+}
+
+// one round of the loop: else-leaf e under label 0 and next decision n under label 1 of the last chain node
+pub proof fn lemma_cc_step(a0: AArena<2>, a1: AArena<2>, a2: AArena<2>, c: Seq<usize>, it: Seq<usize>, clazz: usize, dim: usize, e: usize, n: usize)
+    requires cc_inv(a0, c, it, clazz, dim), c.len() < it.len(), wf_at(a0, Some(0usize)),
+        child_added(a0, a1, c.last(), 0, e), a1[c.last()].value == a0[c.last()].value, const_leaf(a1[e].value.aff, dim, 0real),
+        child_added(a1, a2, c.last(), 1, n), a2[c.last()].value == a1[c.last()].value, le_pred(a2[n].value.aff, dim, it[c.len() as int], clazz),
+    ensures cc_inv(a2, c.push(n), it, clazz, dim)
+{
+    reveal(cc_inv);
+    let last = c.last();
+    let c2 = c.push(n);
+    assert(c[c.len() - 1] == last);
+    assert(e != last && n != last && n != e);
+    assert(a2[e] == a1[e]);
+    assert(a2[last].children[0] == Some(e)) by { assert(a2[last].children@[0] == a1[last].children@[0]); assert(a1[last].children@[0] == Some(e)); }
+    assert(a2[last].children[1] == Some(n)) by { assert(a2[last].children@[1] == Some(n)); }
+    assert forall|k: int| 0 <= k < c.len() - 1 implies a2[c[k]] == a0[c[k]] by {
+        assert(c[k] != last);
+        assert(a0.dom().contains(c[k]));
+        assert(a1[c[k]] == a0[c[k]]);
+        assert(a2[c[k]] == a1[c[k]]);
+    }
+    assert forall|i: usize| #[trigger] a2.dom().contains(i) implies a2[i].value.aff.ok() && a2[i].value.aff.mat.ncols() == dim && a2[i].value.aff.mat.nrows() == 1 by {
+        if i != n && i != e && i != last { assert(a0.dom().contains(i)); assert(a1[i] == a0[i]); assert(a2[i] == a1[i]); }
+        if i == last { assert(a0.dom().contains(last)); }
+    }
+    assert forall|k: int| 0 <= k < c2.len() implies a2.dom().contains(#[trigger] c2[k]) && le_pred(a2[c2[k]].value.aff, dim, it[k], clazz) by {
+        if k < c.len() { assert(c2[k] == c[k]); assert(a0.dom().contains(c[k])); if k < c.len() - 1 { } }
+    }
+    assert forall|k1: int, k2: int| 0 <= k1 < k2 < c2.len() implies c2[k1] != c2[k2] by {
+        assert(c2[k1] == c[k1]); assert(a0.dom().contains(c[k1]));
+        if k2 < c.len() { assert(c2[k2] == c[k2]); }
+    }
+    assert forall|k: int| 0 <= k < c2.len() - 1 implies ({
+            let nd = a2[#[trigger] c2[k]];
+            !nd.isleaf && nd.children[1] == Some(c2[k + 1]) && nd.children[0].is_some() && a2.dom().contains(nd.children[0].unwrap())
+                && a2[nd.children[0].unwrap()].isleaf && const_leaf(a2[nd.children[0].unwrap()].value.aff, dim, 0real)
+        }) by {
+        assert(c2[k] == c[k]);
+        if k < c.len() - 1 {
+            assert(c2[k + 1] == c[k + 1]);
+            let e0 = a0[c[k]].children[0].unwrap();
+            assert(a0.dom().contains(e0));
+            assert(e0 != last) by {
+                if e0 == last {
+                    let k2 = c.len() - 2;
+                    assert(a0[c[k]].children[0] == Some(last));
+                    assert(a0[last].parent == Some(c[k]));
+                    assert(a0[c[k2]].children[1] == Some(c[k2 + 1]));
+                    assert(a0[last].parent == Some(c[k2]));
+                    if k != k2 { assert(c[k] != c[k2]); }
+                }
+            }
+            assert(a1[e0] == a0[e0]);
+            assert(a2[e0] == a1[e0]);
+        }
+    }
+}
+
+// the last chain node gets its two terminals: the chain is complete
+pub proof fn lemma_cc_complete(a0: AArena<2>, a1: AArena<2>, a2: AArena<2>, c: Seq<usize>, it: Seq<usize>, clazz: usize, dim: usize, e: usize, t1: usize)
+    requires cc_inv(a0, c, it, clazz, dim), c.len() == it.len(), wf_at(a0, Some(0usize)),
+        child_added(a0, a1, c.last(), 0, e), a1[c.last()].value == a0[c.last()].value, const_leaf(a1[e].value.aff, dim, 0real),
+        child_added(a1, a2, c.last(), 1, t1), a2[c.last()].value == a1[c.last()].value, const_leaf(a2[t1].value.aff, dim, 1real),
+    ensures
+        aff_shape_ok(a2, dim),
+        forall|i: usize| a2.dom().contains(i) && #[trigger] a2[i].isleaf ==> a2[i].value.aff.mat.nrows() == 1,
+        chain_ok(a2, c, t1, true), c[0] == 0, c.len() >= 1,
+        forall|k: int| 0 <= k < c.len() ==> le_pred(a2[#[trigger] c[k]].value.aff, dim, it[k], clazz),
+        forall|k: int| 0 <= k < c.len() ==> a2[#[trigger] c[k]].children[0].is_some() && const_leaf(a2[a2[c[k]].children[0].unwrap()].value.aff, dim, 0real),
+        const_leaf(a2[t1].value.aff, dim, 1real),
+{
+    reveal(cc_inv);
+    let last = c.last();
+    assert(c[c.len() - 1] == last);
+    assert(e != last && t1 != last && t1 != e);
+    assert(a2[e] == a1[e]);
+    assert(a2[last].children[0] == Some(e)) by { assert(a2[last].children@[0] == a1[last].children@[0]); assert(a1[last].children@[0] == Some(e)); }
+    assert(a2[last].children[1] == Some(t1)) by { assert(a2[last].children@[1] == Some(t1)); }
+    assert forall|i: usize| a2.dom().contains(i) && i != e && i != t1 && i != last implies a2[i] == a0[i] by {
+        assert(a0.dom().contains(i)); assert(a1[i] == a0[i]); assert(a2[i] == a1[i]);
+    }
+    assert((1usize << 1usize) == 2usize) by(bit_vector);
+    assert forall|i: usize| #![trigger a2[i].value] a2.dom().contains(i) implies a2[i].value.aff.ok() && a2[i].value.aff.mat.ncols() == dim
+        && (!a2[i].isleaf ==> 1 <= a2[i].value.aff.mat.nrows() < 16 && (1usize << (a2[i].value.aff.mat.nrows() as usize)) <= 2) by {
+        if i != e && i != t1 && i != last { assert(a0.dom().contains(i)); }
+        if i == last { assert(a0.dom().contains(last)); }
+    }
+    assert forall|i: usize| a2.dom().contains(i) && #[trigger] a2[i].isleaf implies a2[i].value.aff.mat.nrows() == 1 by {
+        if i != e && i != t1 && i != last { assert(a0.dom().contains(i)); }
+    }
+    // else-leaves of the earlier chain nodes are untouched
+    assert forall|k: int| 0 <= k < c.len() - 1 implies c[k] != last && a2[c[k]] == a0[c[k]] && a2[a0[c[k]].children[0].unwrap()] == a0[a0[c[k]].children[0].unwrap()] by {
+        assert(a0.dom().contains(c[k]));
+        let e0 = a0[c[k]].children[0].unwrap();
+        assert(a0.dom().contains(e0));
+        assert(e0 != last) by {
+            if e0 == last {
+                let k2 = c.len() - 2;
+                assert(a0[c[k]].children[0] == Some(last));
+                assert(a0[last].parent == Some(c[k]));
+                assert(a0[c[k2]].children[1] == Some(c[k2 + 1]));
+                assert(a0[last].parent == Some(c[k2]));
+                if k != k2 { assert(c[k] != c[k2]); }
+            }
+        }
+    }
+    assert forall|j: int| 0 <= j < c.len() implies ({
+        let nd = #[trigger] a2[c[j]];
+        &&& a2.dom().contains(c[j]) && !nd.isleaf && nd.value.aff.mat.nrows() == 1
+        &&& nd.children[1] == Some(if j + 1 < c.len() { c[j + 1] } else { t1 })
+        &&& (true ==> nd.children[0].is_some() && a2.dom().contains(nd.children[0].unwrap()) && a2[nd.children[0].unwrap()].isleaf)
+        &&& (!true ==> nd.children[0].is_none())
+    }) by {
+        assert(a0.dom().contains(c[j]));
+    }
+    assert forall|k: int| 0 <= k < c.len() implies le_pred(a2[#[trigger] c[k]].value.aff, dim, it[k], clazz) by { assert(a0.dom().contains(c[k])); }
+    assert forall|k: int| 0 <= k < c.len() implies a2[#[trigger] c[k]].children[0].is_some() && const_leaf(a2[a2[c[k]].children[0].unwrap()].value.aff, dim, 0real) by {
+        assert(a0.dom().contains(c[k]));
+    }
+}
+
+// ... and denotes the indicator of "x[clazz] is maximal"
+pub proof fn lemma_cc_final(a2: AArena<2>, c: Seq<usize>, it: Seq<usize>, clazz: usize, dim: usize, t1: usize)
+    requires c.len() == it.len(), clazz < dim, c.len() >= 1, c[0] == 0,
+        forall|k: int| 0 <= k < it.len() ==> (#[trigger] it[k]) < dim && it[k] != clazz,
+        forall|i: usize| i < dim && i != clazz ==> it.contains(i),
+        chain_ok(a2, c, t1, true),
+        forall|k: int| 0 <= k < c.len() ==> le_pred(a2[#[trigger] c[k]].value.aff, dim, it[k], clazz),
+        forall|k: int| 0 <= k < c.len() ==> a2[#[trigger] c[k]].children[0].is_some() && const_leaf(a2[a2[c[k]].children[0].unwrap()].value.aff, dim, 0real),
+        const_leaf(a2[t1].value.aff, dim, 1real),
+    ensures
+        forall|h: Map<usize, nat>, x: V| ranked_down(a2, h) && x.len() == dim ==>
+            #[trigger] tree_fn(a2, h, 0, x) == Some(seq![if is_max_at(x, clazz as int) { 1real } else { 0real }]),
+{
+    assert forall|h: Map<usize, nat>, x: V| ranked_down(a2, h) && x.len() == dim implies
+        #[trigger] tree_fn(a2, h, 0, x) == Some(seq![if is_max_at(x, clazz as int) { 1real } else { 0real }]) by {
+        lemma_chain_fn(a2, h, c, t1, true, 0, x);
+        lemma_cc_val(a2, c, it, clazz, dim, t1, 0, x);
+        // all predicates hold  <==>  x[clazz] is maximal
+        if forall|k: int| 0 <= k < it.len() ==> x[(#[trigger] it[k]) as int] <= x[clazz as int] {
+            assert forall|i: int| 0 <= i < x.len() implies x[i] <= x[clazz as int] by {
+                if i != clazz {
+                    assert(it.contains(i as usize));
+                    let k = choose|k: int| 0 <= k < it.len() && it[k] == i as usize;
+                    assert(x[it[k] as int] <= x[clazz as int]);
+                }
+            }
+        } else {
+            let k = choose|k: int| 0 <= k < it.len() && !(x[(#[trigger] it[k]) as int] <= x[clazz as int]);
+            assert(!is_max_at(x, clazz as int)) by { if is_max_at(x, clazz as int) { assert(x[it[k] as int] <= x[clazz as int]); } }
+        }
+    }
+}
+// value of the completed chain from position j: 1 if all remaining predicates hold, else 0
+pub proof fn lemma_cc_val(a2: AArena<2>, c: Seq<usize>, it: Seq<usize>, clazz: usize, dim: usize, t1: usize, j: int, x: V)
+    requires 0 <= j <= c.len(), c.len() == it.len(), x.len() == dim, c.len() >= 1,
+        forall|k: int| 0 <= k < c.len() ==> le_pred(a2[#[trigger] c[k]].value.aff, dim, it[k], clazz),
+        forall|k: int| 0 <= k < c.len() ==> a2[#[trigger] c[k]].children[0].is_some() && const_leaf(a2[a2[c[k]].children[0].unwrap()].value.aff, dim, 0real),
+        const_leaf(a2[t1].value.aff, dim, 1real),
+    ensures chain_val(a2, c, t1, true, j, x) == Some(seq![if (forall|k: int| j <= k < it.len() ==> x[(#[trigger] it[k]) as int] <= x[clazz as int]) { 1real } else { 0real }])
+    decreases c.len() - j
+{
+    if j < c.len() {
+        lemma_cc_val(a2, c, it, clazz, dim, t1, j + 1, x);
+        assert(a2[c[j]].value.aff.row_sat(0, x) <==> x[it[j] as int] <= x[clazz as int]);
+        if a2[c[j]].value.aff.row_sat(0, x) {
+            if forall|k: int| j + 1 <= k < it.len() ==> x[(#[trigger] it[k]) as int] <= x[clazz as int] {
+                assert forall|k: int| j <= k < it.len() implies x[(#[trigger] it[k]) as int] <= x[clazz as int] by {}
+            } else {
+                let k = choose|k: int| j + 1 <= k < it.len() && !(x[(#[trigger] it[k]) as int] <= x[clazz as int]);
+                assert(!(forall|k: int| j <= k < it.len() ==> x[(#[trigger] it[k]) as int] <= x[clazz as int])) by {
+                    if forall|k: int| j <= k < it.len() ==> x[(#[trigger] it[k]) as int] <= x[clazz as int] { assert(x[it[k] as int] <= x[clazz as int]); }
+                }
+            }
+        } else {
+            assert(!(forall|k: int| j <= k < it.len() ==> x[(#[trigger] it[k]) as int] <= x[clazz as int])) by {
+                if forall|k: int| j <= k < it.len() ==> x[(#[trigger] it[k]) as int] <= x[clazz as int] { assert(x[it[j] as int] <= x[clazz as int]); }
+            }
+        }
+    }
+}
+
+impl<A: Float> AffFuncG<A> {
+//@assumed units/aff_algebra.rs | subtraction
+}
+
+//@fn src/distill/schema.rs | - | class_characterization
+//@bodysub let mut iter = (0..dim).filter(|x| *x != clazz); => let __it = range_except_vec(dim, clazz);
+//@bodysub iter.next().unwrap() => __it[0]
+//@bodysub for idx in iter { => let mut __j: usize = 1; while __j < __it.len() { let idx = __it[__j]; __j += 1;
+//@bodysub AffFunc::constant(dim, 0.) => AffFunc::constant(dim, flit(0, 1))
+//@bodysub AffFunc::constant(dim, 1.) => AffFunc::constant(dim, flit(1, 1))
+//@spec
+    requires clazz < dim, dim >= 2
+    ensures
+        r.tree.wf(), r.tree.root == Some(0usize), r.in_dim == dim, aff_shape_ok(r.a(), dim),
+        forall|i: usize| r.a().dom().contains(i) && #[trigger] r.a()[i].isleaf ==> r.a()[i].value.aff.mat.nrows() == 1,
+        // indicator of "component clazz is maximal" (ties count as maximal)
+        forall|h: Map<usize, nat>, x: V| ranked_down(r.a(), h) && x.len() == dim ==>
+            #[trigger] tree_fn(r.a(), h, 0, x) == Some(seq![if is_max_at(x, clazz as int) { 1real } else { 0real }]),
+//@hint after let affine = AffFunc::subtraction(dim, __it[0], clazz);
+    proof { lemma_sub_is_le_pred(affine, dim, __it@[0], clazz); }
+//@hint loop 1 before
+    let ghost mut c: Seq<usize> = seq![0usize];
+    proof { lemma_cc_init(dd.a(), __it@, clazz, dim); }
+//@loop 1
+        invariant
+            clazz < dim, dim >= 2, 1 <= __j <= __it@.len(), __it@.len() == dim - 1,
+            forall|k: int| 0 <= k < __it@.len() ==> (#[trigger] __it@[k]) < dim && __it@[k] != clazz,
+            dd.tree.wf(), dd.tree.root == Some(0usize), dd.in_dim == dim,
+            cc_inv(dd.a(), c, __it@, clazz, dim), c.len() == __j, last_node == c.last(),
+        decreases __it@.len() - __j
+//@hint loop 1 start
+        let ghost a0 = dd.a();
+        proof { reveal(cc_inv); assert(c[c.len() - 1] == last_node); }
+//@hint after dd.add_child_node(last_node, 0, AffFunc::constant(dim, flit(0, 1))) .unwrap();
+        let ghost a1 = dd.a();
+//@hint after last_node = new_node;
+        proof {
+            let f = dd.a()[new_node].value.aff;
+            lemma_sub_is_le_pred(f, dim, idx, clazz);
+            lemma_cc_step(a0, a1, dd.a(), c, __it@, clazz, dim, a1[c.last()].children[0].unwrap(), new_node);
+            c = c.push(new_node);
+        }
+//@hint loop 1 after
+    let ghost b0 = dd.a();
+    proof { reveal(cc_inv); assert(c[c.len() - 1] == last_node); }
+//@hint after#2 dd.add_child_node(last_node, 0, AffFunc::constant(dim, flit(0, 1))) .unwrap();
+    let ghost b1 = dd.a();
+//@hint after dd.add_child_node(last_node, 1, AffFunc::constant(dim, flit(1, 1))) .unwrap();
+    proof {
+        let t1 = dd.a()[c.last()].children[1].unwrap();
+        lemma_cc_complete(b0, b1, dd.a(), c, __it@, clazz, dim, b1[c.last()].children[0].unwrap(), t1);
+        lemma_cc_final(dd.a(), c, __it@, clazz, dim, t1);
+    }
+//@end
+
+
+// ================================================================ argmax (binary comparison tree built with a work stack)
+// index -> f64 (`i as f64`); ASSUMED exact (indices are far below 2^53)
+#[verifier::external_body]
+pub fn fidx(i: usize) -> (r: f64)
+    ensures r.rv() == i as real, !r.nan(), !r.inf()
+{ unimplemented!() }
+
+// candidate index cd is compared with the current maximum index cu; afterwards cd + 1 is the candidate
+pub open spec fn amax(x: V, cd: int, cu: int, dim: int) -> int
+    decreases dim - cd
+{
+    if cd >= dim { cu } else if x[cd] <= x[cu] { amax(x, cd + 1, cu, dim) } else { amax(x, cd + 1, cd, dim) }
+}
+pub proof fn lemma_amax_argmax(x: V, cd: int, dim: int)
+    requires 1 <= cd <= dim
+    ensures amax(x, cd, argmax_idx(x, cd), dim) == argmax_idx(x, dim)
+    decreases dim - cd
+{
+    if cd < dim {
+        lemma_amax_argmax(x, cd + 1, dim);
+    }
+}
+
+// ghost bookkeeping: st maps every comparison node to (candidate, current maximum); pend are the comparison nodes still without children
+#[verifier::opaque]
+pub open spec fn am_inv(a: AArena<2>, st: Map<usize, (usize, usize)>, pend: Set<usize>, dim: usize) -> bool {
+    &&& st.dom().contains(0) && st[0] == (1usize, 0usize)
+    &&& forall|i: usize| #[trigger] a.dom().contains(i) ==> a[i].value.aff.ok() && a[i].value.aff.mat.ncols() == dim && a[i].value.aff.mat.nrows() == 1
+    &&& forall|p: usize| #[trigger] st.dom().contains(p) ==> a.dom().contains(p) && 1 <= st[p].0 < dim && st[p].1 < st[p].0 && le_pred(a[p].value.aff, dim, st[p].0, st[p].1)
+    &&& forall|p: usize| #[trigger] pend.contains(p) ==> st.dom().contains(p) && a[p].isleaf && no_kids(a[p])
+    &&& forall|p: usize| #[trigger] st.dom().contains(p) && !pend.contains(p) ==> {
+            let f = a[p].children[0]; let t = a[p].children[1];
+            &&& !a[p].isleaf && f.is_some() && t.is_some() && a.dom().contains(f.unwrap()) && a.dom().contains(t.unwrap())
+            &&& st[p].0 < dim - 1 ==> st.dom().contains(f.unwrap()) && st.dom().contains(t.unwrap())
+                    && st[f.unwrap()] == ((st[p].0 + 1) as usize, st[p].0) && st[t.unwrap()] == ((st[p].0 + 1) as usize, st[p].1)
+            &&& st[p].0 >= dim - 1 ==> !st.dom().contains(f.unwrap()) && !st.dom().contains(t.unwrap()) && a[f.unwrap()].isleaf && a[t.unwrap()].isleaf
+                    && const_leaf(a[f.unwrap()].value.aff, dim, st[p].0 as real) && const_leaf(a[t.unwrap()].value.aff, dim, st[p].1 as real)
+        }
+}
+#[verifier::opaque]
+pub open spec fn am_stack(st: Map<usize, (usize, usize)>, pend: Set<usize>, stack: Seq<(usize, usize, usize)>) -> bool {
+    &&& forall|j: int| 0 <= j < stack.len() ==> pend.contains((#[trigger] stack[j]).0) && st[stack[j].0] == (stack[j].1, stack[j].2)
+    &&& forall|j1: int, j2: int| 0 <= j1 < j2 < stack.len() ==> (#[trigger] stack[j1]).0 != (#[trigger] stack[j2]).0
+    &&& forall|p: usize| #[trigger] pend.contains(p) ==> exists|j: int| 0 <= j < stack.len() && (#[trigger] stack[j]).0 == p
+}
+
+pub proof fn lemma_am_init(a: AArena<2>, dim: usize)
+    requires a.dom() =~= set![0usize], a[0].isleaf, no_kids(a[0]), le_pred(a[0].value.aff, dim, 1, 0), dim >= 2
+    ensures am_inv(a, Map::<usize, (usize, usize)>::empty().insert(0, (1usize, 0usize)), set![0usize], dim),
+        am_stack(Map::<usize, (usize, usize)>::empty().insert(0, (1usize, 0usize)), set![0usize], seq![(0usize, 1usize, 0usize)])
+{
+    reveal(am_inv); reveal(am_stack);
+    let stk = seq![(0usize, 1usize, 0usize)];
+    assert forall|p: usize| #[trigger] set![0usize].contains(p) implies exists|j: int| 0 <= j < stk.len() && (#[trigger] stk[j]).0 == p by { assert(stk[0].0 == 0); }
+}
+
+pub proof fn lemma_am_pop(a: AArena<2>, st: Map<usize, (usize, usize)>, pend: Set<usize>, dim: usize, rest: Seq<(usize, usize, usize)>, it: (usize, usize, usize))
+    requires am_inv(a, st, pend, dim),
+        exists|s0: Seq<(usize, usize, usize)>| #[trigger] am_stack(st, pend, s0) && s0.len() > 0 && s0.last() == it && s0.drop_last() == rest,
+    ensures pend.contains(it.0), st.dom().contains(it.0), st[it.0] == (it.1, it.2), a.dom().contains(it.0), a[it.0].isleaf, no_kids(a[it.0]),
+        1 <= it.1 < dim, it.2 < it.1,
+        am_stack(st, pend.remove(it.0), rest),
+{
+    reveal(am_inv); reveal(am_stack);
+    let s0 = choose|s0: Seq<(usize, usize, usize)>| #[trigger] am_stack(st, pend, s0) && s0.len() > 0 && s0.last() == it && s0.drop_last() == rest;
+    assert(s0[s0.len() - 1] == it);
+    let pend1 = pend.remove(it.0);
+    assert forall|j: int| 0 <= j < rest.len() implies pend1.contains((#[trigger] rest[j]).0) && st[rest[j].0] == (rest[j].1, rest[j].2) by { assert(rest[j] == s0[j]); }
+    assert forall|j1: int, j2: int| 0 <= j1 < j2 < rest.len() implies (#[trigger] rest[j1]).0 != (#[trigger] rest[j2]).0 by { assert(rest[j1] == s0[j1] && rest[j2] == s0[j2]); }
+    assert forall|p: usize| #[trigger] pend1.contains(p) implies exists|j: int| 0 <= j < rest.len() && (#[trigger] rest[j]).0 == p by {
+        let j = choose|j: int| 0 <= j < s0.len() && (#[trigger] s0[j]).0 == p;
+        assert(j < s0.len() - 1);
+        assert(rest[j] == s0[j]);
+    }
+}
+
+// inner case: two further comparison nodes f (label 0) and t (label 1) below p
+pub proof fn lemma_am_inner(a0: AArena<2>, a1: AArena<2>, a2: AArena<2>, st: Map<usize, (usize, usize)>, pend: Set<usize>, dim: usize,
+    rest: Seq<(usize, usize, usize)>, p: usize, f: usize, t: usize)
+    requires am_inv(a0, st, pend, dim), am_stack(st, pend.remove(p), rest), pend.contains(p), st[p].0 < dim - 1,
+        child_added(a0, a1, p, 0, f), a1[p].value == a0[p].value, le_pred(a1[f].value.aff, dim, (st[p].0 + 1) as usize, st[p].0),
+        child_added(a1, a2, p, 1, t), a2[p].value == a1[p].value, le_pred(a2[t].value.aff, dim, (st[p].0 + 1) as usize, st[p].1),
+    ensures
+        am_inv(a2, st.insert(f, ((st[p].0 + 1) as usize, st[p].0)).insert(t, ((st[p].0 + 1) as usize, st[p].1)), pend.remove(p).insert(f).insert(t), dim),
+        am_stack(st.insert(f, ((st[p].0 + 1) as usize, st[p].0)).insert(t, ((st[p].0 + 1) as usize, st[p].1)), pend.remove(p).insert(f).insert(t),
+            rest.push((f, (st[p].0 + 1) as usize, st[p].0)).push((t, (st[p].0 + 1) as usize, st[p].1))),
+{
+    reveal(am_inv); reveal(am_stack);
+    let cd = st[p].0; let cu = st[p].1;
+    let st2 = st.insert(f, ((cd + 1) as usize, cd)).insert(t, ((cd + 1) as usize, cu));
+    let pend2 = pend.remove(p).insert(f).insert(t);
+    let stk2 = rest.push((f, (cd + 1) as usize, cd)).push((t, (cd + 1) as usize, cu));
+    assert(f != p && t != p && f != t && !a0.dom().contains(f) && !a0.dom().contains(t));
+    assert(!st.dom().contains(f) && !st.dom().contains(t));
+    assert(a2[f] == a1[f]);
+    assert(a2[p].children[0] == Some(f)) by { assert(a2[p].children@[0] == a1[p].children@[0]); assert(a1[p].children@[0] == Some(f)); }
+    assert(a2[p].children[1] == Some(t)) by { assert(a2[p].children@[1] == Some(t)); }
+    assert forall|i: usize| a0.dom().contains(i) && i != p implies a2[i] == a0[i] by { assert(a1[i] == a0[i]); assert(a2[i] == a1[i]); }
+    assert forall|i: usize| #[trigger] a2.dom().contains(i) implies a2[i].value.aff.ok() && a2[i].value.aff.mat.ncols() == dim && a2[i].value.aff.mat.nrows() == 1 by {
+        if i != f && i != t { assert(a0.dom().contains(i)); }
+    }
+    assert forall|q: usize| #[trigger] st2.dom().contains(q) implies a2.dom().contains(q) && 1 <= st2[q].0 < dim && st2[q].1 < st2[q].0 && le_pred(a2[q].value.aff, dim, st2[q].0, st2[q].1) by {
+        if q != f && q != t { assert(st.dom().contains(q)); }
+    }
+    assert forall|q: usize| #[trigger] pend2.contains(q) implies st2.dom().contains(q) && a2[q].isleaf && no_kids(a2[q]) by {
+        if q != f && q != t { assert(pend.contains(q)); }
+    }
+    assert forall|q: usize| #[trigger] st2.dom().contains(q) && !pend2.contains(q) implies ({
+            let ff = a2[q].children[0]; let tt = a2[q].children[1];
+            &&& !a2[q].isleaf && ff.is_some() && tt.is_some() && a2.dom().contains(ff.unwrap()) && a2.dom().contains(tt.unwrap())
+            &&& st2[q].0 < dim - 1 ==> st2.dom().contains(ff.unwrap()) && st2.dom().contains(tt.unwrap())
+                    && st2[ff.unwrap()] == ((st2[q].0 + 1) as usize, st2[q].0) && st2[tt.unwrap()] == ((st2[q].0 + 1) as usize, st2[q].1)
+            &&& st2[q].0 >= dim - 1 ==> !st2.dom().contains(ff.unwrap()) && !st2.dom().contains(tt.unwrap()) && a2[ff.unwrap()].isleaf && a2[tt.unwrap()].isleaf
+                    && const_leaf(a2[ff.unwrap()].value.aff, dim, st2[q].0 as real) && const_leaf(a2[tt.unwrap()].value.aff, dim, st2[q].1 as real)
+        }) by {
+        if q != p {
+            assert(st.dom().contains(q) && !pend.contains(q));
+            let ff = a0[q].children[0].unwrap(); let tt = a0[q].children[1].unwrap();
+            assert(a0.dom().contains(ff) && a0.dom().contains(tt));
+            if st[q].0 >= dim - 1 { assert(ff != p && tt != p); }
+        }
+    }
+    assert forall|j: int| 0 <= j < stk2.len() implies pend2.contains((#[trigger] stk2[j]).0) && st2[stk2[j].0] == (stk2[j].1, stk2[j].2) by {
+        if j < rest.len() { assert(stk2[j] == rest[j]); assert(pend.contains(rest[j].0)); assert(st.dom().contains(rest[j].0)); }
+    }
+    assert forall|j1: int, j2: int| 0 <= j1 < j2 < stk2.len() implies (#[trigger] stk2[j1]).0 != (#[trigger] stk2[j2]).0 by {
+        if j1 < rest.len() { assert(stk2[j1] == rest[j1]); assert(pend.contains(rest[j1].0)); assert(st.dom().contains(rest[j1].0)); }
+        if j2 < rest.len() { assert(stk2[j2] == rest[j2]); }
+    }
+    assert forall|q: usize| #[trigger] pend2.contains(q) implies exists|j: int| 0 <= j < stk2.len() && (#[trigger] stk2[j]).0 == q by {
+        if q == f { assert(stk2[rest.len() as int].0 == f); }
+        else if q == t { assert(stk2[rest.len() as int + 1].0 == t); }
+        else {
+            assert(pend.remove(p).contains(q));
+            let j = choose|j: int| 0 <= j < rest.len() && (#[trigger] rest[j]).0 == q;
+            assert(stk2[j] == rest[j]);
+        }
+    }
+}
+
+// last level: two constant terminals below p
+pub proof fn lemma_am_last(a0: AArena<2>, a1: AArena<2>, a2: AArena<2>, st: Map<usize, (usize, usize)>, pend: Set<usize>, dim: usize,
+    rest: Seq<(usize, usize, usize)>, p: usize, f: usize, t: usize)
+    requires am_inv(a0, st, pend, dim), am_stack(st, pend.remove(p), rest), pend.contains(p), st[p].0 >= dim - 1,
+        child_added(a0, a1, p, 0, f), a1[p].value == a0[p].value, const_leaf(a1[f].value.aff, dim, st[p].0 as real),
+        child_added(a1, a2, p, 1, t), a2[p].value == a1[p].value, const_leaf(a2[t].value.aff, dim, st[p].1 as real),
+    ensures am_inv(a2, st, pend.remove(p), dim), am_stack(st, pend.remove(p), rest),
+{
+    reveal(am_inv); reveal(am_stack);
+    let pend2 = pend.remove(p);
+    assert(f != p && t != p && f != t && !a0.dom().contains(f) && !a0.dom().contains(t));
+    assert(!st.dom().contains(f) && !st.dom().contains(t));
+    assert(a2[f] == a1[f]);
+    assert(a2[p].children[0] == Some(f)) by { assert(a2[p].children@[0] == a1[p].children@[0]); assert(a1[p].children@[0] == Some(f)); }
+    assert(a2[p].children[1] == Some(t)) by { assert(a2[p].children@[1] == Some(t)); }
+    assert forall|i: usize| a0.dom().contains(i) && i != p implies a2[i] == a0[i] by { assert(a1[i] == a0[i]); assert(a2[i] == a1[i]); }
+    assert forall|i: usize| #[trigger] a2.dom().contains(i) implies a2[i].value.aff.ok() && a2[i].value.aff.mat.ncols() == dim && a2[i].value.aff.mat.nrows() == 1 by {
+        if i != f && i != t { assert(a0.dom().contains(i)); }
+    }
+    assert forall|q: usize| #[trigger] st.dom().contains(q) && !pend2.contains(q) implies ({
+            let ff = a2[q].children[0]; let tt = a2[q].children[1];
+            &&& !a2[q].isleaf && ff.is_some() && tt.is_some() && a2.dom().contains(ff.unwrap()) && a2.dom().contains(tt.unwrap())
+            &&& st[q].0 < dim - 1 ==> st.dom().contains(ff.unwrap()) && st.dom().contains(tt.unwrap())
+                    && st[ff.unwrap()] == ((st[q].0 + 1) as usize, st[q].0) && st[tt.unwrap()] == ((st[q].0 + 1) as usize, st[q].1)
+            &&& st[q].0 >= dim - 1 ==> !st.dom().contains(ff.unwrap()) && !st.dom().contains(tt.unwrap()) && a2[ff.unwrap()].isleaf && a2[tt.unwrap()].isleaf
+                    && const_leaf(a2[ff.unwrap()].value.aff, dim, st[q].0 as real) && const_leaf(a2[tt.unwrap()].value.aff, dim, st[q].1 as real)
+        }) by {
+        if q != p {
+            assert(!pend.contains(q));
+            let ff = a0[q].children[0].unwrap(); let tt = a0[q].children[1].unwrap();
+            assert(a0.dom().contains(ff) && a0.dom().contains(tt));
+            if st[q].0 >= dim - 1 { assert(ff != p && tt != p); }
+        }
+    }
+    assert forall|q: usize| #[trigger] pend2.contains(q) implies st.dom().contains(q) && a2[q].isleaf && no_kids(a2[q]) by { assert(pend.contains(q)); }
+}
+
+// complete tree: value below comparison node p
+pub proof fn lemma_am_val(a: AArena<2>, h: Map<usize, nat>, st: Map<usize, (usize, usize)>, dim: usize, p: usize, x: V)
+    requires am_inv(a, st, Set::<usize>::empty(), dim), ranked_down(a, h), st.dom().contains(p), x.len() == dim
+    ensures tree_fn(a, h, p, x) == Some(seq![amax(x, st[p].0 as int, st[p].1 as int, dim as int) as real])
+    decreases dim - st[p].0
+{
+    reveal(am_inv);
+    let cd = st[p].0; let cu = st[p].1;
+    let f = a[p].children[0].unwrap(); let t = a[p].children[1].unwrap();
+    lemma_tree_fn_decision(a, h, p, x);
+    assert(a[p].value.aff.row_sat(0, x) <==> x[cd as int] <= x[cu as int]);
+    if cd < dim - 1 {
+        lemma_am_val(a, h, st, dim, f, x);
+        lemma_am_val(a, h, st, dim, t, x);
+    } else {
+        lemma_tree_fn_leaf(a, h, f, x);
+        lemma_tree_fn_leaf(a, h, t, x);
+        assert(amax(x, cd as int + 1, cu as int, dim as int) == cu);
+        assert(amax(x, cd as int + 1, cd as int, dim as int) == cd);
+    }
+}
+pub proof fn lemma_am_final(a: AArena<2>, st: Map<usize, (usize, usize)>, pend: Set<usize>, dim: usize)
+    requires am_inv(a, st, pend, dim), am_stack(st, pend, Seq::<(usize, usize, usize)>::empty()), dim >= 2
+    ensures aff_shape_ok(a, dim),
+        forall|i: usize| a.dom().contains(i) && #[trigger] a[i].isleaf ==> a[i].value.aff.mat.nrows() == 1,
+        forall|h: Map<usize, nat>, x: V| ranked_down(a, h) && x.len() == dim ==> #[trigger] tree_fn(a, h, 0, x) == Some(seq![argmax_idx(x, dim as int) as real]),
+{
+    reveal(am_stack);
+    assert forall|p: usize| !pend.contains(p) by {
+        if pend.contains(p) { let j = choose|j: int| 0 <= j < Seq::<(usize, usize, usize)>::empty().len() && (#[trigger] Seq::<(usize, usize, usize)>::empty()[j]).0 == p; }
+    }
+    assert(pend =~= Set::<usize>::empty());
+    assert((1usize << 1usize) == 2usize) by(bit_vector);
+    assert(aff_shape_ok(a, dim)) by { reveal(am_inv); }
+    assert forall|i: usize| a.dom().contains(i) && #[trigger] a[i].isleaf implies a[i].value.aff.mat.nrows() == 1 by { reveal(am_inv); }
+    assert forall|h: Map<usize, nat>, x: V| ranked_down(a, h) && x.len() == dim implies #[trigger] tree_fn(a, h, 0, x) == Some(seq![argmax_idx(x, dim as int) as real]) by {
+        assert(st.dom().contains(0) && st[0] == (1usize, 0usize)) by { reveal(am_inv); }
+        lemma_am_val(a, h, st, dim, 0, x);
+        lemma_amax_argmax(x, 1, dim as int);
+    }
+}
+
+//@fn src/distill/schema.rs | - | argmax
+//@attr #[verifier::exec_allows_no_decreases_clause]
+//@bodysub max_when_false as f64 => fidx(max_when_false)
+//@bodysub max_when_true as f64 => fidx(max_when_true)
+//@bodysub let mut stack = Vec::new(); => let mut stack: Vec<(usize, usize, usize)> = Vec::new();
+//@spec
+    requires dim >= 2
+    ensures
+        r.tree.wf(), r.tree.root == Some(0usize), r.in_dim == dim, aff_shape_ok(r.a(), dim),
+        forall|i: usize| r.a().dom().contains(i) && #[trigger] r.a()[i].isleaf ==> r.a()[i].value.aff.mat.nrows() == 1,
+        // index of the first maximal component
+        forall|h: Map<usize, nat>, x: V| ranked_down(r.a(), h) && x.len() == dim ==>
+            #[trigger] tree_fn(r.a(), h, 0, x) == Some(seq![argmax_idx(x, dim as int) as real]),
+//@hint after let affine = AffFunc::subtraction(dim, 1, 0);
+    proof { lemma_sub_is_le_pred(affine, dim, 1, 0); }
+//@hint loop 1 before
+    let ghost mut st: Map<usize, (usize, usize)> = Map::<usize, (usize, usize)>::empty().insert(0, (1usize, 0usize));
+    let ghost mut pend: Set<usize> = set![0usize];
+    proof { lemma_am_init(dd.a(), dim); }
+//@loop 1
+        invariant
+            dim >= 2, dd.tree.wf(), dd.tree.root == Some(0usize), dd.in_dim == dim,
+            am_inv(dd.a(), st, pend, dim), am_stack(st, pend, stack@),
+        ensures stack@.len() == 0
+//@hint loop 1 start
+        let ghost a0 = dd.a();
+        proof { lemma_am_pop(a0, st, pend, dim, stack@, (parent_idx, max_when_false, max_when_true)); }
+//@hint after let node_false = dd.add_child_node(parent_idx, 0, affine_false).unwrap();
+            let ghost a1 = dd.a();
+            proof { lemma_sub_is_le_pred(a1[node_false].value.aff, dim, (max_when_false + 1) as usize, max_when_false); }
+//@hint after let node_true = dd.add_child_node(parent_idx, 1, affine_true).unwrap();
+            proof {
+                lemma_sub_is_le_pred(dd.a()[node_true].value.aff, dim, (max_when_false + 1) as usize, max_when_true);
+                lemma_am_inner(a0, a1, dd.a(), st, pend, dim, stack@, parent_idx, node_false, node_true);
+                st = st.insert(node_false, ((max_when_false + 1) as usize, max_when_false)).insert(node_true, ((max_when_false + 1) as usize, max_when_true));
+                pend = pend.remove(parent_idx).insert(node_false).insert(node_true);
+            }
+//@hint after dd.add_child_node(parent_idx, 0, affine_false).unwrap();
+            let ghost b1 = dd.a();
+//@hint after dd.add_child_node(parent_idx, 1, affine_true).unwrap();
+            proof {
+                lemma_am_last(a0, b1, dd.a(), st, pend, dim, stack@, parent_idx, b1[parent_idx].children[0].unwrap(), dd.a()[parent_idx].children[1].unwrap());
+                pend = pend.remove(parent_idx);
+            }
+//@hint loop 1 after
+    proof {
+        assert(stack@ =~= Seq::<(usize, usize, usize)>::empty());
+        lemma_am_final(dd.a(), st, pend, dim);
+    }
+//@end
+
 } // verus!
 fn main() {}
